@@ -224,7 +224,6 @@ func (f *frame) contractCallEnv(ct *Contract, key string, fn *ssa.Function, extr
 		t := env.evalBool(r.X)
 		u.oblige(f.key, "pre", shortKey(key)+"."+clauseName(r, i), f.curReach, t, "requires "+r.Src+" at call of "+key+" "+f.pos(ins), r.Tag)
 	}
-	f.useLemmas(ct)
 	// frame: apply modifies
 	f.applyModifies(ct, env)
 	// results
